@@ -12,7 +12,9 @@ See DESIGN.md 2.4 and Appendix A.
 import errno
 import json
 import os
+import signal
 import sys
+import threading
 import types
 import xmlrpc.client as xc
 from collections import deque
@@ -493,6 +495,17 @@ class Node:
 # cluster
 
 
+class StepHang(BaseException):
+    """The real code did not come back from one scheduler step (BaseException: not swallowed by its own guards)."""
+
+
+STEP_CPU_LIMIT = 10.0          # seconds of CPU for one scheduler step (a step normally takes milliseconds)
+
+
+def _on_vtalrm(signum, frame):
+    raise StepHang(f'no return after {STEP_CPU_LIMIT} s of CPU')
+
+
 class _Enter:
     def __init__(self, cluster, name):
         self.c, self.name = cluster, name
@@ -500,13 +513,16 @@ class _Enter:
     def __enter__(self):
         from supervisor import events
         c = self.c
+        if not c._stack and threading.current_thread() is threading.main_thread():
+            signal.signal(signal.SIGVTALRM, _on_vtalrm)
+            signal.setitimer(signal.ITIMER_VIRTUAL, STEP_CPU_LIMIT)
         c._stack.append((c.clock.current, events.callbacks))
         c.clock.current = self.name
         node = c.nodes[self.name]
         events.callbacks = node.callbacks
         c.current = self.name
 
-    def __exit__(self, *a):
+    def __exit__(self, etype, exc, tb):
         from supervisor import events
         c = self.c
         node = c.nodes[self.name]
@@ -515,6 +531,22 @@ class _Enter:
         c.clock.current = prev
         c.current = prev
         events.callbacks = cbs
+        if not c._stack and threading.current_thread() is threading.main_thread():
+            signal.setitimer(signal.ITIMER_VIRTUAL, 0)
+            if etype is StepHang:
+                # the instance is stuck in a loop: reported as an internal error; the instance is taken out
+                c.errors.append({'node': self.name, 'what': 'step did not terminate', 'exc': repr(exc)})
+                c.hung.append(self.name)
+                try:
+                    for p in c.proxies(self.name).values():
+                        with p.queue.mutex:
+                            p.queue.queue.clear()
+                except Exception:
+                    pass
+                node.alive = False
+                if node.logger:
+                    node.logger.criticals = []
+                return True
         return False
 
 
@@ -701,6 +733,7 @@ class Cluster:
         self.tick_secs = tick_secs
         self.current = None
         self._stack = []
+        self.hung = []            # instances that did not come back from a step (StepHang)
         self.nodes = {}
         self.by_identifier = {}
         self.extra_hosts = {}
